@@ -13,12 +13,22 @@ fn main() {
     println!("cargo:rerun-if-env-changed=VERIF_CORPUS_N");
     println!("cargo:rerun-if-env-changed=VERIF_EXTRA_SEED");
     println!("cargo:rerun-if-env-changed=VERIF_EXTRA_N");
+    println!("cargo:rerun-if-env-changed=VERIF_EXCLUDE");
     let n: usize = env::var("VERIF_CORPUS_N").ok().and_then(|s| s.parse().ok()).unwrap_or(90);
     let extra_seed: u64 = env::var("VERIF_EXTRA_SEED").ok().and_then(|s| s.parse().ok()).unwrap_or(0);
     let extra_n: usize = env::var("VERIF_EXTRA_N").ok().and_then(|s| s.parse().ok()).unwrap_or(0);
 
-    let base = gen::corpus(0, n, true, "G");
-    let extra = gen::corpus(extra_seed.wrapping_add(1), extra_n, false, "X");
+    // Definitions that no longer compile against /repo's working tree (named by the driver after a
+    // failed build, see ./check): every shape that mentions one of them is left out, so that the rest of
+    // the corpus can still be run. The run then reports the reduced corpus and never exits 0.
+    let exclude: Vec<String> = env::var("VERIF_EXCLUDE").ok().map(|s| s.split(';').filter(|x| !x.is_empty()).map(|x| x.to_string()).collect()).unwrap_or_default();
+    let mut base = gen::corpus(0, n, true, "G");
+    let mut extra = gen::corpus(extra_seed.wrapping_add(1), extra_n, false, "X");
+    if !exclude.is_empty() {
+        let keep = |t: &desc::Ty| !gen::named_defs(std::slice::from_ref(t)).iter().any(|d| exclude.iter().any(|x| *x == d.rust() || (!x.contains('<') && d.rust().starts_with(&format!("{}<", x)))));
+        base.shapes.retain(keep);
+        extra.shapes.retain(keep);
+    }
     let mut src = String::new();
     src.push_str(&gen::emit(&base.shapes, "registry_base"));
     src.push_str(&gen::emit(&extra.shapes, "registry_extra"));
@@ -26,6 +36,7 @@ fn main() {
         "pub const CORPUS_N: usize = {};\npub const EXTRA_SEED: u64 = {};\npub const EXTRA_N: usize = {};\n",
         n, extra_seed, extra_n
     ));
+    src.push_str(&format!("pub const EXCLUDED: &[&str] = &[{}];\n", exclude.iter().map(|x| format!("{:?}", x)).collect::<Vec<_>>().join(", ")));
     let out = Path::new(&env::var("OUT_DIR").unwrap()).join("shapes.rs");
     fs::write(out, src).unwrap();
 }
